@@ -429,7 +429,12 @@ impl TargetScheme for Action {
                 buffer.push_str(&format!(")"));
             }
 
-            Action::PrintFid => buffer.push_str("(print-file-fid)"),
+            // Goes through a printer like every other output, so that the line is written
+            // under the port mutex (local) or inside a frame (distributed)
+            Action::PrintFid => {
+                let printer = ctx.get_printer(Some('\n'));
+                buffer.push_str(&format!("({printer} (file-fid))"));
+            }
             Action::Quit => buffer.push_str("(lipe-scan-break 0)"),
 
             Action::Prune | Action::List | Action::FileList(_) => {
